@@ -223,6 +223,25 @@ func runC01(c *fw.Ctx) int {
 			}
 		}
 	}
+	// packed lists of n equal wide elements, n around every point where the payload crosses a
+	// length-prefix boundary for 1-, 4-, 5-, 8- and 10-byte elements
+	for _, k := range pk {
+		var w uint64
+		for d := 0; d < 12; d++ {
+			for _, u := range k.gen(c.Rng).us {
+				if u > w {
+					w = u
+				}
+			}
+		}
+		for _, n := range []int{12, 13, 15, 16, 17, 25, 26, 31, 32, 33, 63, 64, 127, 128, 129} {
+			us := make([]uint64, n)
+			for i := range us {
+				us[i] = w
+			}
+			roundTripField(c, "packed", k, interestingTags[(n+len(k.name))%len(interestingTags)], wval{us: us}, n%2 == 0)
+		}
+	}
 	rounds := n / 4
 	for i := 0; i < rounds; i++ {
 		k := sk[c.Rng.Intn(len(sk))]
